@@ -140,7 +140,7 @@ def _split_bar(t):
     return out
 
 
-_FIELD_END = re.compile(r"^(?:self|p\d+|val\().*\.[A-Za-z_]\w*$", re.S)
+_FIELD_END = re.compile(r"^[A-Za-z_$@~(].*\.(?:[A-Za-z_]\w*|\d+)$", re.S)
 
 
 def _strip_wrapped(t, head, repl_head):
@@ -887,6 +887,12 @@ class AcceptExtract(guards.Extract):
             return f_and(pc, o)
         if k in ("for", "while", "loop"):
             return self.loop(s, pc, env)
+        if k in ("continue", "break"):
+            # this iteration is over without a failure: for the loop as a whole the same as reaching the end of
+            # the body
+            if hasattr(self, "iter_done"):
+                self.iter_done.append(f_and(self.ctx, pc))
+            return None
         if k == "assign":
             pc = f_and(pc, self.try_atoms(s["r"], env))
             l = peel(s["l"])
@@ -992,7 +998,10 @@ class AcceptExtract(guards.Extract):
         cond_f = TRUE
         if s.get("k") == "while":
             cond_f = sub.cond(s["cond"], e2)
+        sub.iter_done = []
         body_ok = sub.branch(s["body"], cond_f, e2)
+        for d_ in sub.iter_done:
+            body_ok = f_or(body_ok if body_ok is not None else FALSE, d_)
         for pc_, rep_ in sub.stores:
             self.stores.append((f_and(self.ctx, pc), "loop[%s]{%s => %s}" % (
                 it_text, guards.canon(pc_) if len(atoms_of(pc_)) <= 10 else structural(pc_), rep_)))
